@@ -114,12 +114,12 @@ Proof. exact pop_input_is_exp_input. Qed.
 Print Assumptions C16_input_partial.
 
 (* The full-strength statement (every well-formed population circuit runs like its explicit network) is FALSE of the
-   faithful model; it stays visible here and is refuted by computed witnesses that also fail on the real code
+   faithful model (the refutations of the classes F2 / F3 carry the hypothesis that the repair switch of Population.v is off); it stays visible here and is refuted by computed witnesses that also fail on the real code
    (corpus/C16). *)
 Definition C16_full_statement : Prop := forall N units dt rows, wf_net N = true -> wf_units N units = true ->
   pop_run unit_poly N units dt rows = Some (exp_run 0 unit_poly N units dt rows).
 
-Theorem C16_refuted_scalar_coupling :
+Theorem C16_refuted_scalar_coupling : fixed_F3 = false ->
   wf_net N_scalar_coupling = true /\ g_scalar_plain N_scalar_coupling = false /\
   pop_run unit_poly N_scalar_coupling units22 (mkq 1 4) 2 <> Some (exp_run 0 unit_poly N_scalar_coupling units22 (mkq 1 4) 2).
 Proof. exact refuted_scalar_coupling. Qed.
@@ -131,7 +131,7 @@ Theorem C16_refuted_near_one :
 Proof. exact refuted_near_one. Qed.
 Print Assumptions C16_refuted_near_one.
 
-Theorem C16_refuted_post_name :
+Theorem C16_refuted_post_name : fixed_F2 = false ->
   wf_net N_post_name = true /\ g_post_name N_post_name = false /\
   pop_run unit_poly N_post_name units22 (mkq 1 4) 2 <> Some (exp_run 0 unit_poly N_post_name units22 (mkq 1 4) 2).
 Proof. exact refuted_post_name. Qed.
@@ -152,7 +152,8 @@ Print Assumptions C16_refuted_loud.
 
 Theorem C16_full_refuted : ~ C16_full_statement.
 Proof.
-  intros H. destruct refuted_scalar_coupling as (Hwf & _ & Hne). apply Hne. apply H; [exact Hwf|vm_compute; reflexivity].
+  intros H. destruct refuted_loud as ((Hwf & _ & Hnone) & _).
+  specialize (H N_dup_sources units22 (mkq 1 4) 2%nat Hwf eq_refl). rewrite Hnone in H. discriminate H.
 Qed.
 Print Assumptions C16_full_refuted.
 
